@@ -610,6 +610,9 @@ func (h *hsRunner) scriptedScenario(base hsCase, cf, other *chainCfg, unhandled 
 		}
 		h.r.Count("hs/judged/"+tag+"/"+demand+"/"+out, 1)
 		h.r.Nontriv(hc.key())
+		if hc.Mut == "flip[last].7" || hc.Mut == "version=3" {
+			h.r.Sample(map[string]interface{}{"handshake_case": hc, "demand": demand, "outcome": s.String()})
+		}
 		if s.ok() {
 			h.r.Violation("handshake/accepted/"+tag+"/"+demand, fmt.Sprintf("%s %s side accepted a peer whose status differs from an acceptable one only in %s (%s) [chain %s, local height %d, announced height %d]",
 				base.Ver, base.Role, hc.Field, what, cf.Name, base.LocalH, base.RemoteH), replayCase{Handshake: &hc})
@@ -663,6 +666,71 @@ func (h *hsRunner) scriptedScenario(base hsCase, cf, other *chainCfg, unhandled 
 		}
 		judge(hc, run(st, R.id), R.id, demand, what)
 	}
+
+	// 4. not single-field: what a broken or hostile peer may send instead of a status — every prefix of the honest
+	// status encoding, random payloads, nothing at all.  Demand (any one suffices): payload is not a status; its
+	// genesis differs; its chain id is unparseable or differs in magic/consensus/flags; its sender id is not the connection's.
+	runRaw := func(stream []byte) sideResult {
+		res, err, pan := roleDo(L.handshaker(base.Ver, R.id, newScriptConn(stream)), base.Role)
+		return sideResult{res, err, pan}
+	}
+	frameOf := func(payload []byte) []byte {
+		fs := frameSpec{Sub: p2pcommon.StatusRequest.Uint32(), Len: uint32(len(payload)), TS: 1700000000000000001, ID: "1102030405060708090a0b0c0d0e0f10"}
+		return append(encodeHeader(fs), payload...)
+	}
+	rawDemand := func(payload []byte) string {
+		st := &types.Status{}
+		if err := p2putil.UnmarshalMessageBody(payload, st); err != nil {
+			return "not-a-status"
+		}
+		if !bytes.Equal(st.Genesis, cf.Genesis) {
+			return "genesis"
+		}
+		if d := cidDemand(st.ChainID, cf, st.BestHeight); d != "" && d != "version" {
+			return "chainid-" + d
+		}
+		if st.Sender == nil || string(st.Sender.PeerID) != string(R.id) {
+			return "peer-identity"
+		}
+		return ""
+	}
+	type rawCase struct {
+		name   string
+		stream []byte
+		demand string
+	}
+	var raws []rawCase
+	step := h.c.Pick(3, 1)
+	for j := 0; j < len(honestBytes); j += step {
+		raws = append(raws, rawCase{fmt.Sprintf("prefix%d", j), frameOf(honestBytes[:j]), rawDemand(honestBytes[:j])})
+	}
+	gr := h.c.Rand("hs-garbage/" + base.key())
+	for k := 0; k < h.c.Pick(10, 40); k++ {
+		pl := make([]byte, gr.Intn(2*len(honestBytes)))
+		gr.Read(pl)
+		if k%2 == 0 && len(pl) > 0 { // honest bytes with a random window overwritten
+			pl = append([]byte{}, honestBytes...)
+			at := gr.Intn(len(pl))
+			for x := at; x < len(pl) && x < at+1+gr.Intn(6); x++ {
+				pl[x] = byte(gr.Intn(256))
+			}
+		}
+		if bytes.Equal(pl, honestBytes) {
+			continue
+		}
+		raws = append(raws, rawCase{fmt.Sprintf("random%d", k), frameOf(pl), rawDemand(pl)})
+	}
+	full := frameOf(honestBytes)
+	raws = append(raws, rawCase{"no-bytes", nil, "no-status"}, rawCase{"header-only", full[:hdrLen], "no-status"},
+		rawCase{"frame-cut-short", full[:len(full)-1], "no-status"}, rawCase{"half-header", full[:hdrLen/2], "no-status"})
+	for _, rc := range raws {
+		hc := base
+		hc.Field, hc.Mut = "payload", rc.name
+		if h.skip(hc) {
+			continue
+		}
+		judge(hc, runRaw(rc.stream), R.id, rc.demand, "status payload replaced: "+rc.name)
+	}
 }
 
 // ---- real code on both ends, different chains -----------------------------------------------
@@ -671,10 +739,10 @@ func (h *hsRunner) unequalPairs() {
 	for ci, cf := range h.cfgs {
 		hs := cf.heights()
 		type diff struct {
-			name             string
-			cfgB             *chainCfg
-			aConn, bConn     int // index into ids of the identity the transport reports
-			failA, failB     func(ha, hb uint64) bool
+			name         string
+			cfgB         *chainCfg
+			aConn, bConn int // index into ids of the identity the transport reports
+			failA, failB func(ha, hb uint64) bool
 		}
 		always := func(uint64, uint64) bool { return true }
 		never := func(uint64, uint64) bool { return false }
@@ -689,7 +757,9 @@ func (h *hsRunner) unequalPairs() {
 		diffs := []diff{
 			{"genesis", alt(func(c *chainCfg) { c.Genesis = genesisOf(c.Name + "'") }), 1, 0, always, always},
 			{"magic", alt(func(c *chainCfg) { c.ID.Magic += ".fork" }), 1, 0, always, always},
-			{"consensus", alt(func(c *chainCfg) { c.ID.Consensus = map[string]string{"dpos": "raft", "raft": "sbp", "sbp": "dpos"}[c.ID.Consensus] }), 1, 0, always, always},
+			{"consensus", alt(func(c *chainCfg) {
+				c.ID.Consensus = map[string]string{"dpos": "raft", "raft": "sbp", "sbp": "dpos"}[c.ID.Consensus]
+			}), 1, 0, always, always},
 			{"public", alt(func(c *chainCfg) { c.ID.PublicNet = !c.ID.PublicNet }), 1, 0, always, always},
 			{"mainnet", alt(func(c *chainCfg) { c.ID.MainNet = !c.ID.MainNet }), 1, 0, always, always},
 			// B runs a different hard-fork schedule: B (inbound, checks first) must refuse when the version A announces for
